@@ -96,7 +96,8 @@ TEXT = {
 
 
 def main():
-    claimed = [p for p in ALL if p in checks.CHECKS]
+    ready = open(os.path.join(HERE, "ready.txt")).read().split()
+    claimed = [p for p in ALL if p in checks.CHECKS and p in ready]
     man = dict(
         version=1,
         setup_cmd="python3 -m py_compile vcheck.py checks.py && mkdir -p evidence replay",
